@@ -1246,3 +1246,76 @@ func ruleHeightFromSameReadTransaction(c *report.Ctx) {
 		c.Fail("coin-queries", "no coin query with a tip height found (anchor lost)", "")
 	}
 }
+
+// ruleBalanceMapCoversReadyWallets (C19): the running-balance map AddRelevantTx works on has a row for every wallet
+// whose credit or debit it may have to apply.
+func ruleBalanceMapCoversReadyWallets(c *report.Ctx) {
+	p := c.P
+	c.Rule("balance-map-covers-ready-wallets", "the balance map handed to TxStore.AddRelevantTx is filled by ranging over UtxoStore.FetchAllMinedBalance (every stored balance, filtered by the ready set at most): AddCredits / updateMinedBalance index it with the wallet of any relevant output or input and call Add/Sub on the result without a presence test, so a map built from a narrower source (e.g. only the wallets the block pays) makes a block that only debits a wallet dereference the nil inside a zero Amount — the follower goroutine panics holding the writer lock", 1)
+	art := fn(c, pkgTxmgr, "TxStore", "AddRelevantTx")
+	fam := fn(c, pkgTxmgr, "UtxoStore", "FetchAllMinedBalance")
+	if art == nil || fam == nil {
+		return
+	}
+	n := 0
+	for _, f := range p.ModFuncs {
+		if pk := an.FuncPkg(f); pk == nil || pk.Path() != pkgWallet {
+			continue
+		}
+		for i, s := range calls(f, art) {
+			cc := an.CallOf(s)
+			var m ssa.Value
+			for _, a := range cc.Args {
+				if mt, ok := a.Type().Underlying().(*types.Map); ok && strings.HasSuffix(mt.Elem().String(), "massutil.Amount") {
+					m = an.ResolveCell(a)
+				}
+			}
+			if m == nil {
+				continue
+			}
+			n++
+			key := siteKey(f, "AddRelevantTx-balances", i+1)
+			if an.IsNilConst(m) {
+				c.OK(key, "no balance map (received unconfirmed transaction: balances are not touched)", posOf(c, s))
+				continue
+			}
+			ok := false
+			owner := apiOwnerOrSelf(p, f)
+			for _, g := range append([]*ssa.Function{owner}, owner.AnonFuncs...) {
+				an.Instrs(g, func(in ssa.Instruction) {
+					mu, isMU := in.(*ssa.MapUpdate)
+					if !isMU || an.ResolveCell(mu.Map) != m {
+						return
+					}
+					// key = the key of a range over FetchAllMinedBalance's result
+					ex, isEx := mu.Key.(*ssa.Extract)
+					if !isEx {
+						return
+					}
+					nx, isNext := ex.Tuple.(*ssa.Next)
+					if !isNext {
+						return
+					}
+					rg, isRange := nx.Iter.(*ssa.Range)
+					if !isRange {
+						return
+					}
+					src := an.ResolveCell(rg.X)
+					if e2, isE2 := src.(*ssa.Extract); isE2 {
+						if call, isCall := e2.Tuple.(*ssa.Call); isCall && call.Call.StaticCallee() == fam {
+							ok = true
+						}
+					}
+				})
+			}
+			if ok {
+				c.OK(key, "filled from every stored mined balance", posOf(c, s))
+			} else {
+				c.Fail(key, "the balance map given to AddRelevantTx is not filled from FetchAllMinedBalance: a wallet that appears in a block only as a spender (sweep without change, payment to another wallet) has no row, and `allBalances[w].Sub(…)` runs on a zero Amount whose inner pointer is nil — the follower panics on a legal block", posOf(c, s))
+			}
+		}
+	}
+	if n == 0 {
+		c.Fail("AddRelevantTx", "no call of TxStore.AddRelevantTx with a balance map found (anchor lost)", "")
+	}
+}
